@@ -487,6 +487,7 @@ Hypothesis Hsym : forall n, P (VSym n).
 Hypothesis Hpair : forall h t, P h -> P t -> P (VPair h t).
 Hypothesis Harr : forall l, Forall P l -> P (VArr l).
 Hypothesis Hhash : forall kvs, Forall (fun kv => P (fst kv) /\ P (snd kv)) kvs -> P (VHash kvs).
+Hypothesis Hbstr : forall s, P (VBStr s).
 
 Fixpoint value_ind2 (v : value) : P v :=
   match v with
@@ -500,6 +501,7 @@ Fixpoint value_ind2 (v : value) : P v :=
                                | [] => Forall_nil _
                                | (k, x) :: r => Forall_cons (k, x) (conj (value_ind2 k) (value_ind2 x)) (go r)
                                end) kvs)
+  | VBStr s => Hbstr s
   end.
 End ValueInd.
 
@@ -653,6 +655,28 @@ Proof.
   rewrite lex_all_app, E1. cbn [lex_all]. rewrite E2. exact E3.
 Qed.
 
+(* backtick strings *)
+Definition bitem_ok (it : sitem) : Prop := match it with Rune c => c <> 96 | BadByte _ => False end.
+
+Lemma raw_is_rune : forall s, Forall bitem_ok s -> map raw_item s = map item_rune s /\ Forall (fun c => c <> 96) (map raw_item s).
+Proof.
+  induction s as [|it s IH]; intros F; [split; [reflexivity|constructor]|]. inversion F; subst.
+  destruct (IH H2) as [E1 E2]. destruct it as [c|b]; [|destruct H1]. cbn [map raw_item item_rune]. rewrite E1. split; [reflexivity|constructor; [exact H1|rewrite <- E1; exact E2]].
+Qed.
+
+Theorem bstr_lexes : forall s, Forall bitem_ok s ->
+  lexes_to (96 :: map raw_item s ++ [96]) [mkTok TBeginBacktickString []; mkTok TBacktickString (map item_rune s)].
+Proof.
+  intros s F st t p d Hd _ V. destruct (raw_is_rune s F) as [E1 E2].
+  destruct (step_bt_open st t p V) as [s1 [El1 V1]].
+  destruct (run_bt (map raw_item s) s1 [] _ 96 E2 V1) as [s2 [q [El2 V2]]].
+  destruct (step_bt_close s2 _ _ q V2) as [s3 [El3 V3]].
+  destruct (step_delim0 s3 _ 96 d Hd V3) as [s4 [El4 V4]].
+  exists s4. split.
+  - cbn [app lex_all]. rewrite El1. rewrite <- app_assoc. rewrite lex_all_app, El2. cbn [app lex_all]. rewrite El3, El4. reflexivity.
+  - cbn [app] in V4. rewrite E1 in V4. rewrite <- !app_assoc in V4. cbn [app] in *. exact V4.
+Qed.
+
 Lemma strkey_lexes : forall is_print its x tx, Forall (item_ok is_print) its -> starts_ok x -> lexes_to x tx ->
   lexes_to (quote_str is_print its ++ 58 :: x)
            (mkTok TString (map item_rune its) :: mkTok TColonOperator [58] :: tx).
@@ -698,6 +722,7 @@ Fixpoint dat (tail : bool) (v : value) : Prop :=
                (match k with VSym n => symkey_ok n | VStr s => Forall (item_ok is_print) s | _ => False end) /\
                dat false x /\ (match x with VSym n => list_eqb n str_for = false | _ => True end) /\ allp r
            end) kvs
+    | VBStr s => Forall bitem_ok s
     end in
   if tail then match v with VNil => True | VPair h t => dat false h /\ dat true t | _ => body end else body.
 
@@ -733,6 +758,7 @@ Fixpoint tk (tail : bool) (v : value) : list token :=
                 | _ => []
                 end) ++ tk false x ++ ptoks r
            end) kvs ++ [mkTok TRCurly []]
+    | VBStr s => [mkTok TBeginBacktickString []; mkTok TBacktickString (map item_rune s)]
     end in
   if tail then
     match v with
@@ -779,6 +805,7 @@ Proof.
   - unfold quote_str. eexists; eexists; split; [reflexivity|discriminate].
   - destruct D as [Hne [Hp _]]. destruct name as [|c n']; [congruence|]. inversion Hp; subst.
     eexists; eexists; split; [reflexivity|]. apply plain_neq in H1. lia.
+  - eexists; eexists; split; [reflexivity|discriminate].
   - eexists; eexists; split; [reflexivity|discriminate].
   - eexists; eexists; split; [reflexivity|discriminate].
   - eexists; eexists; split; [reflexivity|discriminate].
@@ -835,7 +862,7 @@ Proof.
                   | [] => [125]
                   | (k0, x0) :: r0 =>
                       (match k0 with
-                       | VStr s => quote_str is_print s ++ [58]
+                       | VStr s | VBStr s => quote_str is_print s ++ [58]
                        | VSym n => n ++ [58]
                        | _ => pr is_print false k0 ++ [58]
                        end) ++ pr is_print false x0 ++ (match r0 with [] => [125] | _ => 32 :: pairs r0 end)
@@ -866,6 +893,7 @@ Proof.
           apply symkey_lexes; assumption. }
     split; [exact Hp|].
     intros D a tks Ha. apply dotted_tail; [apply Hp; exact D|exact Ha].
+  - intros s. atom_claim bstr_lexes.
 Qed.
 
 Theorem data_lexes : forall v, dat false v -> lexes_to (print is_print v) (tk false v).
@@ -889,7 +917,7 @@ Proof. destruct v; simpl; lia. Qed.
 
 Definition value_start (t : token) : Prop :=
   match t_kind t with
-  | TDecimal | TUint64 | TBool | TSymbol | TChar | TString | TLParen | TLSquare | TFloat | TLCurly => True
+  | TDecimal | TUint64 | TBool | TSymbol | TChar | TString | TLParen | TLSquare | TFloat | TLCurly | TBeginBacktickString => True
   | _ => False
   end.
 
@@ -1023,6 +1051,12 @@ Lemma kind_is_start : forall t k, value_start t -> (k = TRParen \/ k = TBackslas
 Proof.
   intros t k H Hk. unfold kind_is, value_start in *. destruct (t_kind t); try contradiction;
     destruct Hk as [Hk|[Hk|[Hk|Hk]]]; subst k; reflexivity.
+Qed.
+
+Lemma E_bstr : forall s, E (VBStr s).
+Proof.
+  intros s D f acc top rest e i k Hf. destruct f as [|f]; [simpl in Hf; lia|].
+  cbn [tk app pexpr]. rewrite look_cons. cbn [tok_at nth q_toks q_tail tl q_err q_instr t_kind t_str to_sexp]. reflexivity.
 Qed.
 
 Lemma kind_is_start_curly : forall t, value_start t -> kind_is t TRCurly = false.
@@ -1299,6 +1333,7 @@ Proof.
   - intros kvs F.
     assert (E (VHash kvs)) as Eh by (apply E_hash; eapply Forall_impl; [|exact F]; intros kv [_ [H _]]; exact H).
     split; [exact Eh|apply Hdot; [exact I|exact Eh]].
+  - intros s. split; [apply E_bstr|apply Hdot; [exact I|apply E_bstr]].
 Qed.
 
 End Parse.
